@@ -458,6 +458,7 @@ bool SPxBasisBase<R>::readBasis(
 
       for(int j = 0; j < nCols; ++j)
       {
+         name.str("");
          name << "x" << j;
          DataKey key = theLP->colId(j);
          p_colNames->add(key, name.str().c_str());
@@ -477,6 +478,7 @@ bool SPxBasisBase<R>::readBasis(
 
       for(int i = 0; i < nRows; ++i)
       {
+         name.str("");
          name << "C" << i;
          DataKey key = theLP->rowId(i);
          p_rowNames->add(key, name.str().c_str());
